@@ -38,15 +38,23 @@ func RoutingConcurrent(args []string) {
 	sessions := fs.Int("sessions", 3, "sessions")
 	shard := fs.Int("shard", 0, "shard")
 	shards := fs.Int("shards", 1, "shards")
+	turnIDs := fs.Bool("turn-ids", false, "the server issues TURN credentials (which embed the peer id) and the peer ids contain ':' '@' and '%'")
 	fs.Parse(args)
 	res := &Result{Extra: map[string]any{}}
-	srv, err := startServer(*bin, nil, unlimited...)
+	flags := append([]string{}, unlimited...)
+	if *turnIDs {
+		flags = append(flags, "--turn-server", "turn:127.0.0.1:9", "--turn-static-auth-secret", "static-auth-secret-for-tests")
+	}
+	srv, err := startServer(*bin, nil, flags...)
 	if err != nil {
 		fmt.Fprintln(os.Stderr, err)
 		os.Exit(3)
 	}
 	defer srv.stop()
 	peers := []string{"p1", "p2", "p3"}
+	if *turnIDs {
+		peers = []string{"laptop:alice", "bob@home:2", "c%3Ad:e"}
+	}
 	total := 0
 	for round := 0; round < *rounds; round++ {
 		if round%*shards != *shard {
@@ -124,9 +132,9 @@ func RoutingConcurrent(args []string) {
 						env["to"] = m.to
 					}
 					if n%4 == 3 {
-						env["from"] = "p1"
-						if cl.peer == "p1" {
-							env["from"] = "p2"
+						env["from"] = peers[0]
+						if cl.peer == peers[0] {
+							env["from"] = peers[1]
 						}
 						for s, id := range sessID {
 							if s != cl.sess {
